@@ -2,6 +2,20 @@ use vstd::prelude::*;
 use vstd::arithmetic::power2::*;
 verus! {
 global size_of usize == 8;
+// Unit hll_union (C03, C17): the real functions of hll/union.rs (free kernels, copy_or_downsample, convert_array8_to_type and the
+// HllUnion methods update/update_from_array/update_from_list_or_set/merge_array_into_array_gadget/promote_gadget_and_merge_array/
+// to_sketch/reset) against the view
+//     fold(regs, lg)[i] = max{ regs[j] : j % 2^lg == i },   pmax = register-wise max,
+// with Array4/Array6/Array8 BY CONTRACT over uninterpreted views regs()/lg()/ooo()/hip() (their bodies are verified in the units
+// hll_array4, hll_array6, hll_array8, hll_array8_merge).
+// EXPECTED FAILURES on the current /repo (genuine, replayed defects; the clauses are kept on purpose):
+//   /*@C03.flagflow*/      copy_or_downsample: an out-of-order Hll4/Hll6 source (src_lg_k <= tgt_lg_k) is copied through coupons into a
+//                          fresh in-order Array8 whose hip_accum is then set to the source's (0 for an out-of-order source) => estimate 0.
+//   /*@C03.convert.flag*/  convert_array8_to_type: the Hll6/Hll4 result is built by Array6::new/Array4::new + update() and stays in-order
+//                          although the Array8 gadget is out of order (bounds then come from the HIP tables).
+// convert_array8_to_type and registers: what the CODE does is conv_regs (Hll6: min(v,63); Hll4: v & 63 because pack_coupon keeps six
+// bits); what the PROPERTY needs is "every register kept", which holds exactly when every gadget register is <= 63 (bounded);
+// both are stated under /*@C03.convert.regs*/.  (Registers above 63 can only enter through a crafted Hll8 image.)
 
 // ================= coupons (hll/mod.rs) =================
 const KEY_BITS_26 : u32 = 26 ;
@@ -155,16 +169,19 @@ impl Array4 {
     uninterp spec fn hip(&self) -> f64;
     spec fn shape(&self) -> bool { 4 <= self.lg() <= 21 && self.regs().len() == pow2(self.lg() as nat) }
     spec fn awf(&self) -> bool { self.shape() && bounded(self.regs()) }
-    #[verifier::external_body] fn new(lg_config_k: u8) -> (r: Self) requires 4 <= lg_config_k <= 21 ensures r.awf(), r.lg() == lg_config_k, r.regs() == zeros(pow2(lg_config_k as nat)), !r.ooo() { unimplemented!() }
+    // num_zeros / cur_min caches agree with the registers (what update() relies on)
+    uninterp spec fn cache_ok(&self) -> bool;
+    spec fn wf(&self) -> bool { self.awf() && self.cache_ok() }
+    #[verifier::external_body] fn new(lg_config_k: u8) -> (r: Self) requires 4 <= lg_config_k <= 21 ensures r.wf(), r.lg() == lg_config_k, r.regs() == zeros(pow2(lg_config_k as nat)), !r.ooo() { unimplemented!() }
     #[verifier::external_body] fn get(&self, slot: u32) -> (r: u8) requires self.awf(), slot < self.regs().len() ensures r == self.regs()[slot as int] { unimplemented!() }
     #[verifier::external_body] fn num_registers(&self) -> (r: usize) requires self.shape() ensures r == self.regs().len() { unimplemented!() }
     #[verifier::external_body] fn hip_accum(&self) -> (r: f64) ensures r == self.hip() { unimplemented!() }
     #[verifier::external_body] fn estimate(&self) -> f64 { unimplemented!() }
     #[verifier::external_body] fn set_hip_accum(&mut self, value: f64)
-      ensures final(self).regs() == old(self).regs(), final(self).lg() == old(self).lg(), final(self).ooo() == old(self).ooo(), final(self).hip() == value { unimplemented!() }
+      ensures final(self).regs() == old(self).regs(), final(self).lg() == old(self).lg(), final(self).ooo() == old(self).ooo(), final(self).cache_ok() == old(self).cache_ok(), final(self).hip() == value { unimplemented!() }
     #[verifier::external_body] fn update(&mut self, coupon: u32)
-      requires old(self).awf()
-      ensures final(self).awf(), final(self).lg() == old(self).lg(), final(self).ooo() == old(self).ooo(),
+      requires old(self).wf()
+      ensures final(self).wf(), final(self).lg() == old(self).lg(), final(self).ooo() == old(self).ooo(),
         final(self).regs() == old(self).regs().update(slot_of(coupon, old(self).lg()), max8(old(self).regs()[slot_of(coupon, old(self).lg())], cval(coupon)))
     { unimplemented!() }
 }
@@ -175,16 +192,19 @@ impl Array6 {
     uninterp spec fn hip(&self) -> f64;
     spec fn shape(&self) -> bool { 4 <= self.lg() <= 21 && self.regs().len() == pow2(self.lg() as nat) }
     spec fn awf(&self) -> bool { self.shape() && bounded(self.regs()) }
-    #[verifier::external_body] fn new(lg_config_k: u8) -> (r: Self) requires 4 <= lg_config_k <= 21 ensures r.awf(), r.lg() == lg_config_k, r.regs() == zeros(pow2(lg_config_k as nat)), !r.ooo() { unimplemented!() }
+    // num_zeros / cur_min caches agree with the registers (what update() relies on)
+    uninterp spec fn cache_ok(&self) -> bool;
+    spec fn wf(&self) -> bool { self.awf() && self.cache_ok() }
+    #[verifier::external_body] fn new(lg_config_k: u8) -> (r: Self) requires 4 <= lg_config_k <= 21 ensures r.wf(), r.lg() == lg_config_k, r.regs() == zeros(pow2(lg_config_k as nat)), !r.ooo() { unimplemented!() }
     #[verifier::external_body] fn get(&self, slot: u32) -> (r: u8) requires self.awf(), slot < self.regs().len() ensures r == self.regs()[slot as int] { unimplemented!() }
     #[verifier::external_body] fn num_registers(&self) -> (r: usize) requires self.shape() ensures r == self.regs().len() { unimplemented!() }
     #[verifier::external_body] fn hip_accum(&self) -> (r: f64) ensures r == self.hip() { unimplemented!() }
     #[verifier::external_body] fn estimate(&self) -> f64 { unimplemented!() }
     #[verifier::external_body] fn set_hip_accum(&mut self, value: f64)
-      ensures final(self).regs() == old(self).regs(), final(self).lg() == old(self).lg(), final(self).ooo() == old(self).ooo(), final(self).hip() == value { unimplemented!() }
+      ensures final(self).regs() == old(self).regs(), final(self).lg() == old(self).lg(), final(self).ooo() == old(self).ooo(), final(self).cache_ok() == old(self).cache_ok(), final(self).hip() == value { unimplemented!() }
     #[verifier::external_body] fn update(&mut self, coupon: u32)
-      requires old(self).awf()
-      ensures final(self).awf(), final(self).lg() == old(self).lg(), final(self).ooo() == old(self).ooo(),
+      requires old(self).wf()
+      ensures final(self).wf(), final(self).lg() == old(self).lg(), final(self).ooo() == old(self).ooo(),
         final(self).regs() == old(self).regs().update(slot_of(coupon, old(self).lg()), max8(old(self).regs()[slot_of(coupon, old(self).lg())], cval(coupon)))
     { unimplemented!() }
 }
@@ -194,16 +214,19 @@ impl Array8 {
     uninterp spec fn ooo(&self) -> bool;
     uninterp spec fn hip(&self) -> f64;
     spec fn shape(&self) -> bool { 4 <= self.lg() <= 21 && self.regs().len() == pow2(self.lg() as nat) }
-    #[verifier::external_body] fn new(lg_config_k: u8) -> (r: Self) requires 4 <= lg_config_k <= 21 ensures r.shape(), r.lg() == lg_config_k, r.regs() == zeros(pow2(lg_config_k as nat)), !r.ooo() { unimplemented!() }
+    // num_zeros equals the number of zero registers (what update() relies on; set_register() does not maintain it)
+    uninterp spec fn cache_ok(&self) -> bool;
+    spec fn wf(&self) -> bool { self.shape() && self.cache_ok() }
+    #[verifier::external_body] fn new(lg_config_k: u8) -> (r: Self) requires 4 <= lg_config_k <= 21 ensures r.wf(), r.lg() == lg_config_k, r.regs() == zeros(pow2(lg_config_k as nat)), !r.ooo() { unimplemented!() }
     #[verifier::external_body] fn values(&self) -> (r: &[u8]) ensures r@ == self.regs() { unimplemented!() }
     #[verifier::external_body] fn num_registers(&self) -> (r: usize) requires self.shape() ensures r == self.regs().len() { unimplemented!() }
     #[verifier::external_body] fn hip_accum(&self) -> (r: f64) ensures r == self.hip() { unimplemented!() }
     #[verifier::external_body] fn estimate(&self) -> f64 { unimplemented!() }
     #[verifier::external_body] fn set_hip_accum(&mut self, value: f64)
-      ensures final(self).regs() == old(self).regs(), final(self).lg() == old(self).lg(), final(self).ooo() == old(self).ooo(), final(self).hip() == value { unimplemented!() }
+      ensures final(self).regs() == old(self).regs(), final(self).lg() == old(self).lg(), final(self).ooo() == old(self).ooo(), final(self).cache_ok() == old(self).cache_ok(), final(self).hip() == value { unimplemented!() }
     #[verifier::external_body] fn update(&mut self, coupon: u32)
-      requires old(self).shape()
-      ensures final(self).shape(), final(self).lg() == old(self).lg(), final(self).ooo() == old(self).ooo(),
+      requires old(self).wf()
+      ensures final(self).wf(), final(self).lg() == old(self).lg(), final(self).ooo() == old(self).ooo(),
         final(self).regs() == old(self).regs().update(slot_of(coupon, old(self).lg()), max8(old(self).regs()[slot_of(coupon, old(self).lg())], cval(coupon)))
     { unimplemented!() }
     #[verifier::external_body] fn set_register(&mut self, slot: usize, value: u8)
@@ -212,16 +235,16 @@ impl Array8 {
     { unimplemented!() }
     #[verifier::external_body] fn rebuild_estimator_from_registers(&mut self)
       requires old(self).shape()
-      ensures final(self).regs() == old(self).regs(), final(self).lg() == old(self).lg(), final(self).ooo()
+      ensures final(self).regs() == old(self).regs(), final(self).lg() == old(self).lg(), final(self).ooo(), final(self).cache_ok()
     { unimplemented!() }
     // the two kernels below are verified on their real bodies in unit hll_array8_merge (same clauses)
     #[verifier::external_body] fn merge_array_same_lgk(&mut self, src: &[u8])
       requires old(self).shape(), src@.len() == old(self).regs().len()
-      ensures final(self).lg() == old(self).lg(), final(self).regs() == pmax(old(self).regs(), src@), final(self).ooo()
+      ensures final(self).lg() == old(self).lg(), final(self).regs() == pmax(old(self).regs(), src@), final(self).ooo(), final(self).cache_ok()
     { unimplemented!() }
     #[verifier::external_body] fn merge_array_with_downsample(&mut self, src: &[u8], src_lg_k: u8)
       requires old(self).shape(), old(self).lg() < src_lg_k <= 21, src@.len() == pow2(src_lg_k as nat)
-      ensures final(self).lg() == old(self).lg(), final(self).regs() == pmax(old(self).regs(), fold(src@, old(self).lg())), final(self).ooo()
+      ensures final(self).lg() == old(self).lg(), final(self).regs() == pmax(old(self).regs(), fold(src@, old(self).lg())), final(self).ooo(), final(self).cache_ok()
     { unimplemented!() }
 }
 impl List { uninterp spec fn coupons(&self) -> Set<u32>; }
@@ -274,7 +297,7 @@ fn merge_array46_same_lgk(dst: &mut Array8, num_registers: usize, get_value: imp
   requires old(dst).shape(), num_registers == old(dst).regs().len(), num_registers == src.len(),
     forall|s: u32| s < num_registers ==> #[trigger] get_value.requires((s,)),
     forall|s: u32, v: u8| s < num_registers && #[trigger] get_value.ensures((s,), v) ==> v == src[s as int],
-  ensures final(dst).shape(), final(dst).lg() == old(dst).lg(),
+  ensures final(dst).wf(), final(dst).lg() == old(dst).lg(),
     /*@C03.same_lgk.regs*/ final(dst).regs() == pmax(old(dst).regs(), src),
     /*@C03.flagflow.merged*/ final(dst).ooo(),
 {
@@ -297,7 +320,7 @@ fn merge_array46_same_lgk(dst: &mut Array8, num_registers: usize, get_value: imp
 
 fn merge_array_same_lgk(dst: &mut Array8, src_mode: &Mode)
   requires old(dst).shape(), mode_awf(src_mode), mode_lg(src_mode) == old(dst).lg()
-  ensures final(dst).shape(), final(dst).lg() == old(dst).lg(),
+  ensures final(dst).wf(), final(dst).lg() == old(dst).lg(),
     /*@C03.same_lgk.regs*/ final(dst).regs() == pmax(old(dst).regs(), mode_regs(src_mode)),
     /*@C03.flagflow.merged*/ final(dst).ooo(),
 {
@@ -327,7 +350,7 @@ fn merge_array46_with_downsample(
   requires old(dst).shape(), old(dst).lg() == dst_lg_k, num_registers == src.len(), num_registers <= 0x20_0000,
     forall|s: u32| s < num_registers ==> #[trigger] get_value.requires((s,)),
     forall|s: u32, v: u8| s < num_registers && #[trigger] get_value.ensures((s,), v) ==> v == src[s as int],
-  ensures final(dst).shape(), final(dst).lg() == old(dst).lg(),
+  ensures final(dst).wf(), final(dst).lg() == old(dst).lg(),
     /*@C03.downsample.regs*/ final(dst).regs() == pmax(old(dst).regs(), fold(src, dst_lg_k)),
     /*@C03.flagflow.merged*/ final(dst).ooo(),
 {
@@ -356,7 +379,7 @@ fn merge_array46_with_downsample(
 
 fn merge_array_with_downsample(dst: &mut Array8, dst_lg_k: u8, src_mode: &Mode, src_lg_k: u8)
   requires old(dst).shape(), old(dst).lg() == dst_lg_k, mode_awf(src_mode), mode_lg(src_mode) == src_lg_k, src_lg_k > dst_lg_k
-  ensures final(dst).shape(), final(dst).lg() == old(dst).lg(),
+  ensures final(dst).wf(), final(dst).lg() == old(dst).lg(),
     /*@C03.downsample.regs*/ final(dst).regs() == pmax(old(dst).regs(), fold(mode_regs(src_mode), dst_lg_k)),
     /*@C03.flagflow.merged*/ final(dst).ooo(),
 {
@@ -379,7 +402,7 @@ fn merge_array_with_downsample(dst: &mut Array8, dst_lg_k: u8, src_mode: &Mode, 
 
 fn merge_array_into_array8(dst_array8: &mut Array8, dst_lg_k: u8, src_mode: &Mode, src_lg_k: u8)
   requires old(dst_array8).shape(), old(dst_array8).lg() == dst_lg_k, mode_awf(src_mode), mode_lg(src_mode) == src_lg_k, src_lg_k >= dst_lg_k
-  ensures final(dst_array8).shape(), final(dst_array8).lg() == old(dst_array8).lg(),
+  ensures final(dst_array8).wf(), final(dst_array8).lg() == old(dst_array8).lg(),
     /*@C03.merge.regs*/ final(dst_array8).regs() == pmax(old(dst_array8).regs(), fold(mode_regs(src_mode), dst_lg_k)),
     /*@C03.flagflow.merged*/ final(dst_array8).ooo(),
 {
@@ -394,15 +417,15 @@ fn merge_array_into_array8(dst_array8: &mut Array8, dst_lg_k: u8, src_mode: &Mod
 }
 
 fn copy_array46_via_coupons(dst: &mut Array8, num_registers: usize, get_value: impl Fn(u32) -> u8, Ghost(src): Ghost<Seq<u8> >)
-  requires old(dst).shape(), num_registers == old(dst).regs().len(), num_registers == src.len(), bounded(src),
+  requires old(dst).wf(), num_registers == old(dst).regs().len(), num_registers == src.len(), bounded(src),
     forall|s: u32| s < num_registers ==> #[trigger] get_value.requires((s,)),
     forall|s: u32, v: u8| s < num_registers && #[trigger] get_value.ensures((s,), v) ==> v == src[s as int],
-  ensures final(dst).shape(), final(dst).lg() == old(dst).lg(), final(dst).ooo() == old(dst).ooo(),
+  ensures final(dst).wf(), final(dst).lg() == old(dst).lg(), final(dst).ooo() == old(dst).ooo(),
     /*@C03.copy46.regs*/ final(dst).regs() == pmax(old(dst).regs(), src),
 {
     proof { lemma_k(dst.lg()); }
     for slot in 0..num_registers
-      invariant dst.shape(), dst.lg() == old(dst).lg(), dst.ooo() == old(dst).ooo(), num_registers == dst.regs().len(), num_registers == src.len(), num_registers <= 0x20_0000, bounded(src),
+      invariant dst.wf(), dst.lg() == old(dst).lg(), dst.ooo() == old(dst).ooo(), num_registers == dst.regs().len(), num_registers == src.len(), num_registers <= 0x20_0000, bounded(src),
         forall|s: u32| s < num_registers ==> #[trigger] get_value.requires((s,)),
         forall|s: u32, v: u8| s < num_registers && #[trigger] get_value.ensures((s,), v) ==> v == src[s as int],
         /*@C03.copy46.regs*/ forall|j: int| 0 <= j < num_registers ==> #[trigger] dst.regs()[j] == (if j < slot { max8(old(dst).regs()[j], src[j]) } else { old(dst).regs()[j] }),
@@ -421,7 +444,7 @@ spec fn min8(a: u8, b: u8) -> u8 { if a <= b { a } else { b } }
 
 fn copy_or_downsample(src_mode: &Mode, src_lg_k: u8, tgt_lg_k: u8) -> (result: Array8)
   requires mode_awf(src_mode), mode_lg(src_mode) == src_lg_k, 4 <= tgt_lg_k <= 21
-  ensures result.shape(), result.lg() == min8(src_lg_k, tgt_lg_k),
+  ensures result.wf(), result.lg() == min8(src_lg_k, tgt_lg_k),
     /*@C03.copy.regs*/ result.regs() == fold(mode_regs(src_mode), min8(src_lg_k, tgt_lg_k)),
     /*@C03.flagflow*/ mode_ooo(src_mode) ==> result.ooo(),
     /*@C03.flagflow.merged*/ src_lg_k > tgt_lg_k ==> result.ooo(),
@@ -607,7 +630,7 @@ fn convert_array8_to_type(src: &Array8, lg_config_k: u8, target_type: HllType) -
         HllType::Hll6 => {
             let mut array6 = Array6::new(lg_config_k);
             for slot in 0..src.num_registers()
-              invariant src.shape(), src.lg() == lg_config_k, 4 <= lg_config_k <= 21, array6.awf(), array6.lg() == lg_config_k, !array6.ooo(), src.regs().len() <= 0x20_0000,
+              invariant src.shape(), src.lg() == lg_config_k, 4 <= lg_config_k <= 21, array6.wf(), array6.lg() == lg_config_k, !array6.ooo(), src.regs().len() <= 0x20_0000,
                 /*@C03.convert.regs*/ forall|j: int| 0 <= j < src.regs().len() ==> #[trigger] array6.regs()[j] == (if j < slot { clamp63(src.regs()[j]) } else { 0u8 }),
             {
                 let val = src.values()[slot];
@@ -631,7 +654,7 @@ fn convert_array8_to_type(src: &Array8, lg_config_k: u8, target_type: HllType) -
         HllType::Hll4 => {
             let mut array4 = Array4::new(lg_config_k);
             for slot in 0..src.num_registers()
-              invariant src.shape(), src.lg() == lg_config_k, 4 <= lg_config_k <= 21, array4.awf(), array4.lg() == lg_config_k, !array4.ooo(), src.regs().len() <= 0x20_0000,
+              invariant src.shape(), src.lg() == lg_config_k, 4 <= lg_config_k <= 21, array4.wf(), array4.lg() == lg_config_k, !array4.ooo(), src.regs().len() <= 0x20_0000,
                 /*@C03.convert.regs*/ forall|j: int| 0 <= j < src.regs().len() ==> #[trigger] array4.regs()[j] == (if j < slot { low6(src.regs()[j]) } else { 0u8 }),
             {
                 let val = src.values()[slot];
@@ -665,7 +688,7 @@ spec fn g_ok(m: &Mode, lg: u8) -> bool {
     match m {
         Mode::List { hll_type, .. } => *hll_type == HllType::Hll8,
         Mode::Set { hll_type, .. } => *hll_type == HllType::Hll8,
-        Mode::Array8(a) => a.shape() && a.lg() == lg,
+        Mode::Array8(a) => a.wf() && a.lg() == lg,
         _ => false,
     }
 }
@@ -688,8 +711,8 @@ fn merge_coupons_into_gadget(gadget: &mut HllSketch, src_mode: &Mode)
 // opaque: iterate the coupons of a List/Set gadget into the freshly copied Array8
 #[verifier::external_body]
 fn merge_coupons_into_mode(dst: &mut Array8, src_mode: &Mode)
-  requires !mode_is_array(src_mode), old(dst).shape()
-  ensures final(dst).shape(), final(dst).lg() == old(dst).lg(), final(dst).ooo() == old(dst).ooo(),
+  requires !mode_is_array(src_mode), old(dst).wf()
+  ensures final(dst).wf(), final(dst).lg() == old(dst).lg(), final(dst).ooo() == old(dst).ooo(),
     coupon_merge(old(dst).regs(), mode_coupons(src_mode), old(dst).lg(), final(dst).regs()),
 { unimplemented!() }
 
